@@ -297,7 +297,7 @@ pub fn c15_erdos_renyi_matrix_n3() {
     erdos_renyi::<AdjacencyMatrix, 3>(1);
 }
 
-// @verif prop=C15 tier=quick fl=f1 role=erdos-renyi/edge-list t=1800 mem=16
+// @verif prop=C15 tier=thorough fl=f1 role=erdos-renyi/edge-list t=3600 mem=30
 #[cfg_attr(kani, kani::proof)]
 #[cfg_attr(kani, kani::unwind(8))]
 pub fn c15_erdos_renyi_edge_list_n3() {
@@ -334,7 +334,7 @@ pub fn c15_erdos_renyi_rejects_matrix() {
     erdos_renyi_rejects::<AdjacencyMatrix, 3>();
 }
 
-// @verif prop=C15 tier=quick fl=f1 role=erdos-renyi-rejects/edge-list t=1200 mem=12 expect=panic
+// @verif prop=C15 tier=thorough fl=f1 role=erdos-renyi-rejects/edge-list t=3600 mem=30 expect=panic
 #[cfg_attr(kani, kani::proof)]
 #[cfg_attr(kani, kani::unwind(8))]
 pub fn c15_erdos_renyi_rejects_edge_list() {
@@ -349,7 +349,7 @@ pub fn c15_erdos_renyi_rejects_adjacency_map() {
 }
 
 // Determinism: two calls with equal (symbolic) arguments, AdjacencyMatrix.
-// @verif prop=C15 tier=quick fl=f0 role=deterministic/matrix t=1800 mem=16
+// @verif prop=C15 tier=thorough fl=f0 role=deterministic/matrix t=3600 mem=24
 #[cfg_attr(kani, kani::proof)]
 #[cfg_attr(kani, kani::unwind(8))]
 pub fn c15_deterministic_matrix_n3() {
